@@ -32,6 +32,12 @@ CLAIMED = {
         text="StageHistory's state space is the set of all call histories (ids 1..3, batches<=3, <=3 calls: 60880); a sample (quick) or ~3000 (thorough) is replayed on ONE object of every stage entry point with ids mapped to pool events that include the boundary classes, plus single-event batches, full/reversed/split pool batches and tiled batches of 8191/8192/8193/20000 elements; TLC checks per call that every position's output digest equals the memo for that event and that input arrays are intact.",
         note="Assumes: fixed random numbers via explicit u or a constant np.random shim; per-position identity by digest of all public per-event outputs.",
         design="4/C11"),
+    "C03": dict(
+        category="model_checking",
+        technique="TLA+ spec Acceptance.tla (estimators over Float64) model-checked by TLC on a lattice placed on the cut values; every mcintegral evaluation of the code (direct calls + full runs) recomputed by TLC from the event columns (TraceAcceptance.tla)",
+        text="Acceptance.tla states the diffuse and target estimators from the table columns (weight from beta/theta/path_len, cone cut, trigger cut, dark-sky cut for target-optical only, x0.826 x pexit, / thrown); TLC checks permutation invariance, threshold monotonicity, <= 0.826 x geometric, dark-sky-only-removes and division by thrown on a lattice with values ON the thresholds. Direct calls of RegionGeom/RegionGeomToO.mcintegral with constructed arrays (trigger = threshold, one ulp below, detector exactly on / just outside the cone, decay at the detector distance) and the header values of full runs (thresholds placed at the median signal of each channel) are trace events whose integral, geometry-only integral, passing count and per-event contribution column TLC recomputes to 1e-9.",
+        note="Assumes: dark-sky booleans from astropy evaluated by the harness from configuration values; radio trigger = public calculate_snr on the EFields column; finite triggers (the quantifier of C03).",
+        design="4/C03"),
 }
 
 NOT_BUILT_REASON = "not claimed yet: its specification module and binding are not finished in this tree (see DESIGN.md section 9 build order); no other technique is substituted"
